@@ -272,6 +272,152 @@ theorem polygon_new_fresh (p : Poly ℝ) (h : Polygon.new ndim ncols rows normal
 
 end polygon
 
+/-! ### the sweep may fail an internal assertion (b73b691: caught, "not simple") -/
+
+theorem c15_isSimpleSweep_eq (asserts : List (P2 ℝ) → Bool) (planar : List (V3 ℝ)) :
+    isSimpleSweep asserts planar = (!asserts (normalise (planar.map xy)) && isSimple planar) := by
+  unfold isSimpleSweep isSimple
+  simp only
+  cases h : asserts (normalise (planar.map xy)) <;> simp [h]
+
+theorem c15_chooseNormal_error (computed : Option (V3 ℝ)) (nv : V3 ℝ) (e : String)
+    (h : chooseNormal computed (some nv) = .error e) : e = "ValueError:normal" := by
+  unfold chooseNormal at h
+  simp only at h
+  cases computed with
+  | none => simp only at h; injection h with h; exact h.symm
+  | some c =>
+    cases hu : unitize nv with
+    | none => rw [hu] at h; simp only at h; injection h with h; exact h.symm
+    | some nn =>
+      rw [hu] at h; simp only at h
+      split_ifs at h
+      injection h with h; exact h.symm
+
+/-- the model with the sweep's assertion accepts exactly when the model with a normally returning sweep accepts AND the
+sweep does not assert on the prepared (aligned, centred, normalised) vertices -/
+theorem polygon_newSweep_ok_iff (ndim ncols : Nat) (rows : List (V3 ℝ)) (normal : Option (V3 ℝ)) (ptol : ℝ) (ts : Bool)
+    (align : V3 ℝ → List (V3 ℝ) → List (V3 ℝ)) (asserts : List (P2 ℝ) → Bool) (p : Poly ℝ) :
+    Polygon.newSweep ndim ncols rows normal ptol ts align asserts = .ok p ↔
+      Polygon.new ndim ncols rows normal ptol ts align = .ok p ∧
+      (ts = true → asserts (normalise ((align p.normal (rows.map (pad ncols))).map xy)) = false) := by
+  unfold Polygon.newSweep Polygon.new
+  by_cases h1 : ndim ≠ 2 ∨ (ncols ≠ 2 ∧ ncols ≠ 3)
+  · rw [if_pos h1, if_pos h1]; constructor
+    · intro h; cases h
+    · rintro ⟨h, _⟩; cases h
+  rw [if_neg h1, if_neg h1]
+  by_cases h2 : rows.length < 3
+  · rw [if_pos h2, if_pos h2]; constructor
+    · intro h; cases h
+    · rintro ⟨h, _⟩; cases h
+  rw [if_neg h2, if_neg h2]
+  by_cases h3 : hasDup ncols rows = true
+  · rw [if_pos h3, if_pos h3]; constructor
+    · intro h; cases h
+    · rintro ⟨h, _⟩; cases h
+  rw [if_neg h3, if_neg h3]
+  simp only
+  cases hn : chooseNormal (cornerNormal (rows.map (pad ncols))) normal with
+  | error e =>
+    simp only; constructor
+    · intro h; cases h
+    · rintro ⟨h, _⟩; cases h
+  | ok n' =>
+    cases n' with
+    | none =>
+      simp only; constructor
+      · intro h; cases h
+      · rintro ⟨h, _⟩; cases h
+    | some n =>
+      simp only [c15_isSimpleSweep_eq]
+      by_cases h4 : coplanar n (rows.map (pad ncols)) ptol = true
+      · simp only [h4, Bool.not_true, Bool.false_eq_true, if_false]
+        cases ts
+        · simp
+        · cases hA : asserts (normalise ((align n (rows.map (pad ncols))).map xy)) <;>
+            cases hS : isSimple (align n (rows.map (pad ncols))) <;> simp [hA, hS]
+          · intro hp; rw [← hp]; exact hA
+          · intro hp; rw [← hp]; simp [hA]
+      · simp only [h4, Bool.not_false, if_true]; constructor
+        · intro h; cases h
+        · rintro ⟨h, _⟩; cases h
+
+/-- **The decision logic of `Polygon.__init__` with the repaired `_is_simple`** ("assertion ⇒ reject"): accept iff the
+conjunction of `polygon_new_accepts_iff` holds AND — when `test_simple` — the sweep does not fail an internal assertion
+on the prepared vertices. -/
+theorem polygon_new_accepts_iff_sweep (ndim ncols : Nat) (rows : List (V3 ℝ)) (normal : Option (V3 ℝ)) (ptol : ℝ)
+    (ts : Bool) (align : V3 ℝ → List (V3 ℝ) → List (V3 ℝ)) (asserts : List (P2 ℝ) → Bool) (p : Poly ℝ) :
+    Polygon.newSweep ndim ncols rows normal ptol ts align asserts = .ok p ↔
+      ndim = 2 ∧ (ncols = 2 ∨ ncols = 3) ∧ 3 ≤ rows.length ∧ hasDup ncols rows = false ∧
+      chooseNormal (cornerNormal (rows.map (pad ncols))) normal = .ok (some p.normal) ∧
+      coplanar p.normal (rows.map (pad ncols)) ptol = true ∧
+      (ts = true → asserts (normalise ((align p.normal (rows.map (pad ncols))).map xy)) = false ∧
+        edgesOK ((align p.normal (rows.map (pad ncols))).map xy) = true) ∧
+      p = ⟨rows.map (pad ncols), p.normal, .fresh, .fresh⟩ := by
+  rw [polygon_newSweep_ok_iff, polygon_new_accepts_iff]
+  constructor
+  · rintro ⟨⟨a, b, c, d, e, f, g, h⟩, ha⟩
+    exact ⟨a, b, c, d, e, f, fun t => ⟨ha t, g t⟩, h⟩
+  · rintro ⟨a, b, c, d, e, f, g, h⟩
+    exact ⟨⟨a, b, c, d, e, f, fun t => (g t).2, h⟩, fun t => (g t).1⟩
+
+/-- **assertion ⇒ reject**: a sweep that asserts on the prepared vertices makes `Polygon(..., test_simple=True)`
+raise — never return an object -/
+theorem polygon_newSweep_assertion_rejects (ndim ncols : Nat) (rows : List (V3 ℝ)) (normal : Option (V3 ℝ)) (ptol : ℝ)
+    (align : V3 ℝ → List (V3 ℝ) → List (V3 ℝ)) (asserts : List (P2 ℝ) → Bool) (ha : ∀ pts, asserts pts = true)
+    (p : Poly ℝ) : Polygon.newSweep ndim ncols rows normal ptol true align asserts ≠ .ok p := by
+  intro h
+  have := ((polygon_newSweep_ok_iff ndim ncols rows normal ptol true align asserts p).1 h).2 rfl
+  rw [ha] at this; exact Bool.noConfusion this
+
+/-- a sweep that returns normally (or is not run) gives the model all other theorems speak about -/
+theorem polygon_newSweep_eq_new (ndim ncols : Nat) (rows : List (V3 ℝ)) (normal : Option (V3 ℝ)) (ptol : ℝ) (ts : Bool)
+    (align : V3 ℝ → List (V3 ℝ) → List (V3 ℝ)) (asserts : List (P2 ℝ) → Bool)
+    (h : ts = false ∨ ∀ pts, asserts pts = false) :
+    Polygon.newSweep ndim ncols rows normal ptol ts align asserts = Polygon.new ndim ncols rows normal ptol ts align := by
+  unfold Polygon.newSweep Polygon.new
+  have key : ∀ pl, (ts && !isSimpleSweep asserts pl) = (ts && !isSimple pl) := by
+    intro pl
+    rcases h with h | h
+    · subst h; rfl
+    · rw [c15_isSimpleSweep_eq, h]; simp
+  simp only [key]
+
+/-- **"either an object or ValueError" for Polygon**: every way the model can fail is one of the six ValueErrors -/
+theorem polygon_newSweep_error_is_valueerror (ndim ncols : Nat) (rows : List (V3 ℝ)) (normal : Option (V3 ℝ)) (ptol : ℝ)
+    (ts : Bool) (align : V3 ℝ → List (V3 ℝ) → List (V3 ℝ)) (asserts : List (P2 ℝ) → Bool) (e : String)
+    (h : Polygon.newSweep ndim ncols rows normal ptol ts align asserts = .error e) :
+    e ∈ ["ValueError:shape", "ValueError:short", "ValueError:duplicate", "ValueError:normal", "ValueError:coplanar",
+      "ValueError:simple"] := by
+  unfold Polygon.newSweep at h
+  split_ifs at h with h1 h2 h3
+  · injection h with h; subst h; simp
+  · injection h with h; subst h; simp
+  · injection h with h; subst h; simp
+  · simp only at h
+    cases normal with
+    | none =>
+      rw [c15_chooseNormal_none] at h
+      cases hc : cornerNormal (rows.map (pad ncols)) with
+      | none => rw [hc] at h; injection h with h; subst h; simp
+      | some n =>
+        rw [hc] at h
+        simp only at h
+        split_ifs at h <;> injection h with h <;> subst h <;> simp
+    | some nv =>
+      cases hn : chooseNormal (cornerNormal (rows.map (pad ncols))) (some nv) with
+      | error e' =>
+        rw [hn] at h; injection h with h; subst h
+        rw [c15_chooseNormal_error _ _ _ hn]; simp
+      | ok n' =>
+        rw [hn] at h
+        cases n' with
+        | none => injection h with h; subst h; simp
+        | some n =>
+          simp only at h
+          split_ifs at h <;> injection h with h <;> subst h <;> simp
+
 /-! ### either orientation, any start vertex -/
 
 theorem c15_rowEqb_comm (ncols : Nat) (u v : V3 ℝ) : rowEqb ncols u v = rowEqb ncols v u := by
@@ -724,6 +870,48 @@ theorem convexpolyhedron_new_rejects_nonhull (rows : List (V3 ℝ)) (hull : List
     ConvexPolyhedron.new rows hull = .error "ValueError:convex" := by
   unfold ConvexPolyhedron.new; rw [h]; simp only [beq_iff_eq, if_neg hn]
 
+/-- **a failing hull computation is a ValueError** (f256559): whatever Qhull / scipy raise on the vertex array — too
+few points, flat or collinear sets, non-finite coordinates — the constructor raises ValueError -/
+theorem convexpolyhedron_new_hull_error (rows : List (V3 ℝ)) (hull : List (V3 ℝ) → Except String Nat) (e : String)
+    (h : hull rows = .error e) : ConvexPolyhedron.new rows hull = .error "ValueError:hull" := by
+  unfold ConvexPolyhedron.new; rw [h]
+
+/-- **"either an object or ValueError" for ConvexPolyhedron and ConvexSpheropolyhedron**: every way the model of the
+constructors can fail is a ValueError, whatever the hull computation does -/
+theorem convexpolyhedron_new_error_is_valueerror (rows : List (V3 ℝ)) (hull : List (V3 ℝ) → Except String Nat)
+    (radius : ℝ) (e : String) :
+    (ConvexPolyhedron.new rows hull = .error e → e = "ValueError:hull" ∨ e = "ValueError:convex") ∧
+    (ConvexSpheropolyhedron.new rows radius hull = .error e →
+      e = "ValueError:hull" ∨ e = "ValueError:convex" ∨ e = "ValueError:radius") := by
+  have key : ∀ e, ConvexPolyhedron.new rows hull = .error e → e = "ValueError:hull" ∨ e = "ValueError:convex" := by
+    intro e h
+    unfold ConvexPolyhedron.new at h
+    cases hh : hull rows with
+    | error e' => rw [hh] at h; injection h with h; exact Or.inl h.symm
+    | ok n =>
+      rw [hh] at h
+      simp only at h
+      split_ifs at h
+      injection h with h; exact Or.inr h.symm
+  refine ⟨key e, ?_⟩
+  intro h
+  unfold ConvexSpheropolyhedron.new at h
+  cases hp : ConvexPolyhedron.new rows hull with
+  | error e' =>
+    rw [hp] at h; injection h with h; subst h
+    rcases key _ hp with h' | h'
+    · exact Or.inl h'
+    · exact Or.inr (Or.inl h')
+  | ok p =>
+    rw [hp] at h
+    simp only at h
+    split_ifs at h
+    injection h with h; exact Or.inr (Or.inr h.symm)
+
+/-- three points: Qhull refuses — the model raises ValueError -/
+example : ConvexPolyhedron.new ([⟨0,0,0⟩,⟨1,0,0⟩,⟨0,1,0⟩] : List (V3 ℝ)) (fun _ => .error "QhullError")
+    = .error "ValueError:hull" := convexpolyhedron_new_hull_error _ _ _ rfl
+
 /-- **ConvexSpheropolygon: the radius guard comes FIRST** — a negative rounding radius is reported whatever
 the vertices are. -/
 theorem spheropolygon_new_rejects_negative (ndim ncols : Nat) (rows : List (V3 ℝ)) (radius : ℝ)
@@ -1095,13 +1283,14 @@ example (normal : Option (V3 ℝ)) (ptol : ℝ) (p : Poly ℝ) :
 
 /-! ## 9. allocation: no constructor stores or writes a caller array -/
 
-/-- **`ctor_fresh_arrays`** — for EVERY class and EVERY kind of argument container (list / tuple, float64 ndarray,
-ndarray of another element type; any layout), with the conversions of /repo (`repoSites`: `np.array` at every site):
-every array kept by the new object lives in a block allocated by the constructor (`Fresh s0`: the block number is
-≥ the allocation pointer at entry, every caller block is below it) and every in-place write (`/=`, filling
-`_equations`) went to such a block.  Polygon (and the `_polygon` of nothing else), ConvexPolygon = ConvexSpheropolygon's
-polygon, ConvexPolyhedron = ConvexSpheropolyhedron's polyhedron, the four curved shapes, and — vertices / equations
-only — Polyhedron; its FACES are the exception: `polyhedron_ctor_keeps_caller_faces_fails`. -/
+/-- **`ctor_fresh_arrays`** — for EVERY one of the ten classes and EVERY kind of argument container (list / tuple,
+float64 ndarray, ndarray of another element type, any layout; faces as nested lists, a list of ndarrays or one 2-D
+ndarray), with the conversions of /repo (`repoSites`: `np.array` at every site, every ndarray face `.copy()`-ed since
+b62a6dc): every array kept by the new object lives in a block allocated by the constructor (`Fresh s0`: the block
+number is ≥ the allocation pointer at entry, every caller block is below it) and every in-place write (`/=`, filling
+`_equations`) went to such a block.  Polygon, ConvexPolygon (= ConvexSpheropolygon's polygon), ConvexPolyhedron
+(= ConvexSpheropolyhedron's polyhedron), the four curved shapes and Polyhedron — vertices, FACES and equations: no
+exception any more (the code before the fix: `polyhedron_kept_caller_faces_before_fix`). -/
 theorem ctor_fresh_arrays (s0 : Alloc) :
     (∀ ncols verts normal,
       Fresh s0 (Polygon.alloc repoSites ncols verts normal s0).1.vertices ∧
@@ -1120,6 +1309,7 @@ theorem ctor_fresh_arrays (s0 : Alloc) :
       Fresh s0 (Curved.alloc repoSites cls centre s0).1 ∧ WritesOnlyFresh s0 (Curved.alloc repoSites cls centre s0).2) ∧
     (∀ verts faces nfaces,
       Fresh s0 (Polyhedron.alloc repoSites verts faces nfaces s0).1.vertices ∧
+      (∀ b ∈ (Polyhedron.alloc repoSites verts faces nfaces s0).1.faces, Fresh s0 b) ∧
       Fresh s0 (Polyhedron.alloc repoSites verts faces nfaces s0).1.equations ∧
       WritesOnlyFresh s0 (Polyhedron.alloc repoSites verts faces nfaces s0).2) := by
   refine ⟨?_, ?_, ?_, ?_, ?_⟩
@@ -1129,9 +1319,7 @@ theorem ctor_fresh_arrays (s0 : Alloc) :
   · intro ncols verts normal; exact convexpolygon_alloc_repo ncols verts normal s0
   · intro verts nfaces; exact convexpolyhedron_alloc_repo verts nfaces s0
   · intro cls centre; exact curved_alloc_repo cls centre s0
-  · intro verts faces nfaces
-    obtain ⟨h1, h2, h3, _⟩ := polyhedron_alloc_repo verts faces nfaces s0
-    exact ⟨h1, h2, h3⟩
+  · intro verts faces nfaces; exact polyhedron_alloc_repo verts faces nfaces s0
 
 /-- a stored block that is fresh is none of the caller's (the caller's arrays live below the allocation pointer) -/
 theorem fresh_not_caller (s0 : Alloc) (b : Nat) (hb : Fresh s0 b) (a : ArgKind) (ha : a.Below s0.next) :
@@ -1140,25 +1328,26 @@ theorem fresh_not_caller (s0 : Alloc) (b : Nat) (hb : Fresh s0 b) (a : ArgKind) 
   unfold Fresh at hb; unfold ArgKind.Below at ha
   omega
 
-/-- **`Polyhedron.__init__` keeps the caller's face arrays** (`self._faces = [face for face in faces]`): with a 2-D
-`faces` ndarray every stored face is a row view into the CALLER's block; with a list of ndarrays the stored faces are
-the caller's own objects. So "a constructor never stores the caller's arrays" is false for this class (genuine defect
-of /repo: `known_findings.d/C15.json`, signature `Polyhedron.__init__:caller-array-stored:faces`). -/
-theorem polyhedron_ctor_keeps_caller_faces_fails :
+/-- **regression witness — the code BEFORE b62a6dc** (`self._faces = [face for face in faces]`,
+`sitesBeforeFacesFix`): with a 2-D `faces` ndarray every stored face is a row view into the CALLER's block; with a list
+of ndarrays the stored faces are the caller's own objects. So "a constructor never stores the caller's arrays" was false
+for Polyhedron; it is true now (`ctor_fresh_arrays`), and the check reports
+`Polyhedron.__init__:caller-array-stored:faces` should the old line return. -/
+theorem polyhedron_kept_caller_faces_before_fix :
     ¬ (∀ (s0 : Alloc) (verts : ArgKind) (faces : FacesKind) (nfaces : Nat),
-        ∀ b ∈ (Polyhedron.alloc repoSites verts faces nfaces s0).1.faces, Fresh s0 b) := by
+        ∀ b ∈ (Polyhedron.alloc sitesBeforeFacesFix verts faces nfaces s0).1.faces, Fresh s0 b) := by
   intro h
   have := h ⟨100, []⟩ .seq (.array2d 3) 4 3 (by
-    rw [(polyhedron_alloc_repo .seq (.array2d 3) 4 ⟨100, []⟩).2.2.2]; simp)
+    rw [polyhedron_alloc_before_fix .seq (.array2d 3) 4 ⟨100, []⟩]; simp)
   unfold Fresh at this
   simp at this
 
-/-- `_partial` (what does hold for `Polyhedron`): faces given as nested lists/tuples put no ndarray into the object,
-and a constructor that copied each face (`copyFaces`) would store fresh arrays only -/
-theorem polyhedron_ctor_faces_partial (s0 : Alloc) (verts : ArgKind) (nfaces : Nat) :
-    (Polyhedron.alloc repoSites verts .nested nfaces s0).1.faces = [] ∧
-    ∀ faces, ∀ b ∈ (Polyhedron.alloc { repoSites with copyFaces := true } verts faces nfaces s0).1.faces, Fresh s0 b :=
-  ⟨(polyhedron_alloc_repo verts .nested nfaces s0).2.2.2, fun faces => polyhedron_alloc_copyFaces verts faces nfaces s0⟩
+/-- **faces of `Polyhedron` (full, was `_partial`)**: with /repo's table every stored face array is fresh for every
+container of `faces`, and nested lists / tuples put no ndarray into the object at all -/
+theorem polyhedron_ctor_faces_fresh (s0 : Alloc) (verts : ArgKind) (nfaces : Nat) :
+    (∀ faces, ∀ b ∈ (Polyhedron.alloc repoSites verts faces nfaces s0).1.faces, Fresh s0 b) ∧
+    (Polyhedron.alloc repoSites verts .nested nfaces s0).1.faces = [] :=
+  ⟨fun faces => (polyhedron_alloc_repo verts faces nfaces s0).2.1, rfl⟩
 
 /-- **why `np.array` matters (supplied normal)**: with `np.asarray(normal, dtype=np.float64)` at that one site, a
 caller's float64 ndarray IS the stored `_normal` and is normalised in place; a list, a tuple or an ndarray of another
